@@ -9,6 +9,28 @@ ALL = [f"C{i:02d}" for i in range(1, 21)]
 
 # id -> (level, technique, text, note, design section)
 CHECKS = {
+    "C03": (
+        "exploration",
+        "bounded-exhaustive enumeration of parameter tuples x boundary/lattice points against a reference model",
+        "Every valid parameter tuple of the 20 shape terms (+Constant) over a dyadic+decimal+seed-phased position "
+        "alphabet (both directions, degenerate edges, infinite shoulders) x 4 heights is evaluated at every break "
+        "point, its floating-point neighbours, mid points, a lattice over the support, +-1e6, +-inf and NaN through "
+        "the float, 0-d, 1-D and 2-D entry points and compared with the documented closed form; range, NaN-iff-NaN, "
+        "declared monotonicity and array==elementwise are checked at every point.",
+        "Positions outside the alphabet are not explored; loose docstrings are read as listed in vmc/ref/terms.py; "
+        "values are compared with tolerance 1e-12+1e-9 rel (most are bit-identical, counted in the evidence).",
+        "5/C03",
+    ),
+    "C11": (
+        "exploration",
+        "bounded-exhaustive enumeration of monotonic terms x activation-degree grid with an intrinsic inverse oracle",
+        "For the 6 monotonic terms, every ordered parameter pair of the position alphabet (both directions) x 4 "
+        "heights x every y of a grid of (0,h) incl. the points next to 0, h/2 and h: z(y) is finite, mu(z(y)) = y "
+        "within 1e-9*h, z is monotone in the term's direction, equals the documented closed form, array == "
+        "elementwise; all other registered terms refuse with RuntimeError.",
+        "y >= 2^-1000*h (for subnormal y the exact inverse of Concave is not representable).",
+        "5/C11",
+    ),
     "C04": (
         "exploration",
         "bounded-exhaustive enumeration of a dyadic operand grid against an exact rational reference model",
